@@ -93,6 +93,29 @@ func c09Worker(args []string) {
 					r.Outcome, r.Detail = "panic", fmt.Sprint(p)
 				}
 			}()
+			// "@H1=f1;Sheet2!H2=f2@formula": formulas put into other cells first (reference cycles through functions)
+			var setup [][2]string
+			if strings.HasPrefix(formula, "@") {
+				if p := strings.SplitN(formula[1:], "@", 2); len(p) == 2 {
+					formula = p[1]
+					for _, a := range strings.Split(p[0], ";") {
+						if kv := strings.SplitN(a, "=", 2); len(kv) == 2 {
+							sh, cl := "Sheet1", kv[0]
+							if q := strings.SplitN(kv[0], "!", 2); len(q) == 2 {
+								sh, cl = q[0], q[1]
+							}
+							setup = append(setup, [2]string{sh, cl})
+							f.SetCellFormula(sh, cl, kv[1])
+						}
+					}
+				}
+			}
+			defer func() {
+				for _, sc := range setup {
+					f.SetCellFormula(sc[0], sc[1], "")
+					f.SetCellValue(sc[0], sc[1], nil)
+				}
+			}()
 			if err := f.SetCellFormula("Sheet1", "G11", formula); err != nil {
 				r.Outcome = "error"
 				return
@@ -243,7 +266,7 @@ func c09Known(formula, detail string) string {
 }
 
 func runC09(c *Ctx) {
-	c.R.Rule = "CalcCellValue in isolated worker processes (panic recovered per formula, crash/timeout attributed to the formula): (i) every string up to length L (3 quick / 4 thorough) over a 16-symbol alphabet and single-token mutations of well-formed seed formulas; (ii) every formula function name x arities 0..3 (0..4 thorough) x a dictionary of argument kinds, plus hostile text arguments (regex metacharacters, bare comparison operators, escapes) alone and as criteria over a range; (iii) every reference graph over 3 (4 thorough) formula cells incl. self references; each evaluated twice (determinism), workbook observation before/after (purity), wall time. non-trivial = evaluation returned a value or an error"
+	c.R.Rule = "CalcCellValue in isolated worker processes (panic recovered per formula, crash/timeout attributed to the formula): (i) every string up to length L (3 quick / 4 thorough) over a 16-symbol alphabet and single-token mutations of well-formed seed formulas; (ii) every formula function name x arities 0..3 (0..4 thorough) x a dictionary of argument kinds, plus hostile text arguments (regex metacharacters, bare comparison operators, escapes) alone and as criteria over a range; (iii) every reference graph over 3 (4 thorough) formula cells incl. self references, and reference cycles of length 1..3 that pass through reference-returning functions (INDIRECT, OFFSET, INDEX, CHOOSE, IF, lookups, aggregates over ranges), other sheets and the formula cell itself; each evaluated twice (determinism), workbook observation before/after (purity), wall time. non-trivial = evaluation returned a value or an error"
 	// (i) short strings and mutations
 	alphabet := []string{"1", "A", "(", ")", "+", "-", "*", "^", "\"", ",", "!", "%", "&", "=", "<", "$"} // no ":" here: A:A / 1:1 build million-cell matrices
 	maxLen := 3
@@ -355,6 +378,23 @@ func runC09(c *Ctx) {
 		}
 		c.c09Isolated("function-call", calls[i:j])
 	}
+	// (iii b) reference cycles that pass through reference-returning functions, ranges, names and other sheets
+	// (the formula cell is G11; "@cell=formula;...@" puts formulas into other cells first)
+	var cyc []string
+	for _, self := range []string{"INDIRECT(\"G11\")", "INDIRECT(\"G\"&11)", "INDIRECT(\"R11C7\",FALSE)", "INDIRECT(\"Sheet1!G11\")", "OFFSET(G11,0,0)", "OFFSET(G10,1,0)",
+		"OFFSET(A1,10,6)", "INDEX(G11:G12,1)", "INDEX(A1:G11,11,7)", "SUM(G1:G11)", "SUM(A11:Z11)", "IF(1,G11,0)", "IF(0,0,G11)", "CHOOSE(1,G11)", "SUM(INDIRECT(\"G11\"))",
+		"Sheet1!G11", "G11", "G11+1", "-G11", "G11&\"\"", "N(G11)", "T(G11)", "ISBLANK(G11)", "ROW(G11)", "COUNT(G11)", "COUNTIF(G1:G11,\">0\")", "SUMIF(G1:G11,\">0\")", "VLOOKUP(1,B1:G11,6,FALSE)",
+		"MATCH(1,G1:G11,0)", "LOOKUP(1,B1:B11,G1:G11)", "HLOOKUP(1,A11:G11,1,FALSE)", "SUMPRODUCT(G1:G11)", "AVERAGE(G1:G500)", "SUM(11:11)", "ANCHORARRAY(G11)", "FORMULATEXT(G11)", "ISFORMULA(G11)", "CELL(\"contents\",G11)",
+		"XLOOKUP(1,B1:B11,G1:G11)", "TRANSPOSE(G11)", "AGGREGATE(9,0,G1:G11)", "SUBTOTAL(9,G1:G11)", "IFERROR(G11,1)", "IFS(TRUE,G11)", "SWITCH(1,1,G11)", "AND(G11)", "MAX(G11,1)"} {
+		cyc = append(cyc, self)
+	}
+	for _, via := range []string{"INDIRECT(\"H2\")", "OFFSET(H2,0,0)", "INDEX(H2:H3,1)", "SUM(H2:H3)", "IF(1,H2,0)", "CHOOSE(1,H2)", "H2", "INDIRECT(\"Sheet2!H2\")", "Sheet2!H2", "IFERROR(H2,0)", "VLOOKUP(1,B1:H2,7,FALSE)", "ANCHORARRAY(H2)"} {
+		for _, back := range []string{"H1", "INDIRECT(\"H1\")", "OFFSET(H1,0,0)", "SUM(H1:H1)", "Sheet1!H1", "G11", "INDIRECT(\"G11\")"} {
+			cyc = append(cyc, "@H1="+via+";H2="+back+";Sheet2!H2=Sheet1!H1@H1")
+			cyc = append(cyc, "@H1="+via+";H2=H3+1;H3="+back+";Sheet2!H2=Sheet1!H3@1+H1")
+		}
+	}
+	c.c09Isolated("reference-cycle", cyc)
 	// (iii) reference graphs: cells H1..Hn with formulas referring to subsets of each other
 	n := 3
 	if c.Thorough() {
